@@ -256,7 +256,7 @@ Definition is_reg_ev (x : ev) : bool := match x with ERegister _ => true | _ => 
 (* "the proxy forwards it to its backend": a successful write of the message itself *)
 Definition forwarded (m : msg) (o : outcome) : bool :=
   existsb (fun w => match w with
-                    | WPkt c true ch d => negb (c =? client_conn) && beq_bytes ch (m_ch m) && beq_bytes d (m_data m)
+                    | WPkt _ true ch d => beq_bytes ch (m_ch m) && beq_bytes d (m_data m)
                     | _ => false end) (o_writes o).
 
 (* clause (i): a client registration raises exactly one register event iff it was forwarded *)
